@@ -310,6 +310,7 @@ def weave_fn(it, ctx, meta, modpath, in_trait_decl=False):
 
 def emit_items(items, ctx, meta, modpath, depth=0):
     out = []
+    groups = {}
     for it in items:
         if any(is_cfg_test(a) for a in it.attrs):
             ctx.log.append({"rule": "R1", "file": ctx.cur_file, "line": it.line, "what": "dropped test item %s" % it.name})
@@ -325,7 +326,14 @@ def emit_items(items, ctx, meta, modpath, depth=0):
             txt = rules.hoist_replace(txt, it.impl_type if it.kind == "impl" else None, ctx)
             if ient and ient["attrs"]:
                 txt = "\n".join(ient["attrs"]) + "\n" + txt
-            out.append(txt)
+            g = getattr(it, "conv_group", None)
+            if g is not None:
+                # layout only: macro-expanded conversion impls go to a child module so that Verus verifies them in parallel
+                groups.setdefault(g, []).append(txt)
+            else:
+                out.append(txt)
+    for g, txts in groups.items():
+        out.append("pub mod vp_conv_%s {\n/*@MODHDR@*/#[allow(unused_imports)] use super::*;\nbroadcast use {crate::vp::group_lang, crate::vp::group_cow};\n%s\n}" % (g, "\n\n".join(txts)))
     return "\n\n".join(out)
 
 
